@@ -258,6 +258,11 @@ theorem no_panic_full_false : ¬ no_panic_full := by
   rw [hugeLenFile_panics] at this
   exact this rfl
 
+/-- The model's step budget: with `fuel > length` the model never stops for lack of steps (the
+driver runs it with `length + 1`), so `Res.fuel` never stands for a behaviour of the code. -/
+theorem fuel_enough (X : Ext α) (fuel : Nat) (cb : Nat → Option ε) (bs : Bytes) (hf : bs.length < fuel) :
+    (readFile X fuel cb bs).res ≠ .fuel := File.fuel_enough X fuel cb bs hf
+
 /-! ### Valid files exist: the headers and blocks a writer produces -/
 
 /-- Any header built like `mkHeader` (well-formed metadata blocks, 16-byte sync) whose map selects a
